@@ -334,6 +334,26 @@ func runC16(c *Ctx) {
 			}
 		}
 	}
+	// a destination is given EXACTLY the output: wherever the consumer copies into the caller's value in place
+	// (reflect.Copy), the value's length has been set to the length of what is copied first — a longer pre-populated
+	// destination never keeps a stale tail (SetBytes / SetString replace the content wholesale and need no such step)
+	for _, cp := range callsIn(fc, "reflect.Copy") {
+		if cp.Parent() != fc {
+			continue
+		}
+		dst := cp.Common().Args[0]
+		sized := false
+		for _, sl := range callsIn(fc, "(reflect.Value).SetLen") {
+			recv, a := callArgs(sl.Common())
+			if _, isK := constInt(a[0]); isK {
+				continue
+			}
+			if (recv == dst || sameOrigins(recv, dst)) && dominates(sl, cp) {
+				sized = true
+			}
+		}
+		c.obI("R16.2", cp, "in-place-copy-only-after-resizing", sized, "an in-place copy into the destination is preceded by SetLen(<length copied>) on that destination", "the destination is copied into without its length having been set: what it held beyond the output stays")
+	}
 	// the container that collects the parsed records of a Consume call starts EMPTY (whatever capacity it is given)
 	for _, st := range fieldStores(fc, "rt.csvRecordsWriter", "records") {
 		okE := isNilConst(st.Val)
